@@ -37,12 +37,14 @@ var (
 	P3 = addr20("provider3")
 	P4 = addr20("provider4")
 	Pp = sdk.AccAddress(P1[:1])
+	PL = sdk.AccAddress(append(append([]byte{}, P1...), 0x01)) // 21 bytes, P1 is a strict byte-prefix of it
+	P0 = sdk.AccAddress(append([]byte{0x00, 'p', '0', 0x00, 'z', 0x00}, []byte("______________")...)) // 20 bytes with zero bytes in front and inside
 	W1 = addr20("withdraw1")
 	XX = addr20("stranger")
 )
 
 var addrNames = map[string]sdk.AccAddress{
-	"AU": AU, "O1": O1, "O2": O2, "C1": C1, "C2": C2, "P1": P1, "P2": P2, "P3": P3, "P4": P4, "Pp": Pp, "W1": W1, "XX": XX,
+	"AU": AU, "O1": O1, "O2": O2, "C1": C1, "C2": C2, "P1": P1, "P2": P2, "P3": P3, "P4": P4, "Pp": Pp, "PL": PL, "P0": P0, "W1": W1, "XX": XX,
 }
 
 func A(name string) sdk.AccAddress {
@@ -113,6 +115,10 @@ func pricingText(name string) string {
 		return `{"price":"20stake"}`
 	case "p100":
 		return `{"price":"100stake"}`
+	case "p1x": // an extra property inside a promotion: the pricing schema refuses it, the keeper's parser would not notice
+		return `{"price":"1stake","promotions_by_volume":[{"volume":1,"discount":"0.5","note":"x"}]}`
+	case "p1d": // a "discount" above 1: refused by the schema only
+		return `{"price":"1stake","promotions_by_volume":[{"volume":1,"discount":"1.5"}]}`
 	}
 	panic("unknown pricing " + name)
 }
@@ -125,6 +131,7 @@ type Template struct {
 	Service   string
 	Providers []string
 	Cap       int64
+	CapBig    string // decimal fee cap beyond int64 (used instead of Cap when set)
 	Timeout   int64
 	Super     bool
 	Repeated  bool
@@ -202,6 +209,29 @@ func actBind(svc, prov, owner string, dep int64, pr string, qos uint64) Action {
 		Msg: st.NewMsgBindService(svc, A(prov), coins(dep), pricingText(pr), qos, "{}", A(owner))}
 }
 
+func bigCoins(dec string) sdk.Coins {
+	n, ok := sdk.NewIntFromString(dec)
+	if !ok {
+		panic("bad amount " + dec)
+	}
+	return sdk.NewCoins(sdk.NewCoin(denom, n))
+}
+
+func (t Template) capCoins() sdk.Coins {
+	if t.CapBig != "" {
+		return bigCoins(t.CapBig)
+	}
+	return coins(t.Cap)
+}
+
+// actBindBig: a binding whose price and deposit are beyond int64 (decimal strings).
+func actBindBig(svc, prov, owner, dep, price string, qos uint64) Action {
+	pt := `{"price":"` + price + `stake"}`
+	return Action{Name: fmt.Sprintf("bind(%s,%s,%s,%s,price %s,q%d)", svc, prov, owner, dep, price, qos), Kind: "bind", Svc: svc, Prov: A(prov), Signer: A(owner),
+		Pricing: pt, QoS: qos, Tmpl: -1,
+		Msg: st.NewMsgBindService(svc, A(prov), bigCoins(dep), pt, qos, "{}", A(owner))}
+}
+
 func actUpdate(svc, prov, owner string, dep int64, pr string, qos uint64) Action {
 	pt := ""
 	if pr != "" {
@@ -254,12 +284,12 @@ func (sc *Scenario) actCall(ti int) Action {
 	a := Action{Name: fmt.Sprintf("call(%s)", t.Name), Kind: "call", Tmpl: ti, Signer: A(t.Consumer), Svc: t.Service,
 		TxHash: sc.TxHash(ti), Ctx: hexs(sc.CtxID(ti))}
 	if t.Module == "" {
-		a.Msg = st.NewMsgCallService(t.Service, addrs(t.Providers), A(t.Consumer), inputOK, coins(t.Cap), t.Timeout, t.Super, t.Repeated, t.Freq, t.Total)
+		a.Msg = st.NewMsgCallService(t.Service, addrs(t.Providers), A(t.Consumer), inputOK, t.capCoins(), t.Timeout, t.Super, t.Repeated, t.Freq, t.Total)
 	} else {
 		a.Kind = "mcreate"
 		a.Name = fmt.Sprintf("mcreate(%s)", t.Name)
 		a.Mod = func(ctx sdk.Context, k servicekeeper.Keeper) error {
-			_, err := k.CreateRequestContext(ctx, t.Service, addrs(t.Providers), A(t.Consumer), inputOK, coins(t.Cap), t.Timeout,
+			_, err := k.CreateRequestContext(ctx, t.Service, addrs(t.Providers), A(t.Consumer), inputOK, t.capCoins(), t.Timeout,
 				t.Super, t.Repeated, t.Freq, t.Total, st.RUNNING, t.Threshold, t.Module)
 			return err
 		}
@@ -368,6 +398,7 @@ type Scenario struct {
 	Rig       RigConfig
 	Params    ParamSet
 	FlipIDs   bool
+	GovRaisesMinimum bool // the alphabet contains parameter changes that raise the minimum deposit (C14 judges steps, not states)
 	Funds     []Funding
 	Extra     []sdk.AccAddress
 	Setup     []Action // executed by real messages to build the initial state; all must succeed
